@@ -23,7 +23,7 @@ ASSUMPTIONS = [
 ]
 PLAN = {
     "quick": {"shards": 8, "shard_timeout": 500, "case_timeout": 60, "grammars": 70, "max_extra_depth": 2, "max_case_timeouts": 6},
-    "thorough": {"shards": 16, "shard_timeout": 2400, "case_timeout": 200, "grammars": 900, "max_extra_depth": 3, "max_case_timeouts": 60},
+    "thorough": {"shards": 16, "shard_timeout": 3600, "case_timeout": 200, "grammars": 2500, "max_extra_depth": 3, "max_case_timeouts": 150},
 }
 THRESHOLDS = {
     "quick": {"exhaustive_spaces": 150, "decision_sequences_executed": 20000, "programs_in_languages": 3000, "mode:grow": 80, "mode:pigrow": 30, "mode:full": 30, "frontier_spaces": 50, "full_exact_spaces": 5, "languages_with_union_or_tuple": 20, "languages_with_lists": 20},
